@@ -31,6 +31,7 @@ impl PIdx<$T> { pub fn as_storaget(&self) -> (r: $T) ensures r == self.0 { self.
 impl RIdx<$T> { pub fn as_storaget(&self) -> (r: $T) ensures r == self.0 { self.0 } }
 impl TIdx<$T> { pub fn as_storaget(&self) -> (r: $T) ensures r == self.0 { self.0 } }
 impl StIdx<$T> { pub fn as_storaget(&self) -> (r: $T) ensures r == self.0 { self.0 } }
+impl SIdx<$T> { pub fn as_storaget(&self) -> (r: $T) ensures r == self.0 { self.0 } }
 
 #[derive(Clone, Copy, PartialEq, Eq, Hash, Debug)]
 pub enum Symbol<T> { Rule(RIdx<T>), Token(TIdx<T>) }
